@@ -154,3 +154,24 @@ __CPROVER_ensures(!optv_disable_processing_nl_cont ==> (g_pn_calls == 0 || (g_pn
 /* the chunk handed to the tokenizers starts at the cursor */
 __CPROVER_ensures(g_pn_calls == 0 && __CPROVER_old(TC_idx(ctx)) < TC_size(ctx) ==> (Chunk_m_origLine(pc) == TC_row(ctx) && Chunk_m_origCol(pc) == TC_col(ctx) && Chunk_m_nlCount(pc) == 0 && Chunk_m_flags(pc) == 0))
 ;
+
+/* ---- the trailing-blank strip of tokenize() (C17-K1t: chunk texts do not end in blanks; C03/C02: a backslash never becomes the
+ * last character of a comment by stripping - that would turn the comment into a line continuation and swallow the next line) ---- */
+size_t g_strip_K;       /* arbitrary index ("for all K") */
+#define ST_STR   Chunk_m_str(chunk)
+#define ST_SIZE  UT_size(ST_STR)
+#define ST_OLD   __CPROVER_old(UT_size(Chunk_m_str(chunk)))
+size_t tokenize_strip_contract(struct Chunk *chunk, size_t col)
+__CPROVER_requires(__CPROVER_is_fresh(chunk, SIZEOF_Chunk) && !Chunk_m_nullChunk(chunk) && UT_FRESH_IN(Chunk_m_str(chunk)) && UT_size(Chunk_m_str(chunk)) < (1UL << 30) && col < (1UL << 40))
+__CPROVER_assigns(DI_size(UT_chars(Chunk_m_str(chunk))), Chunk_m_origColEnd(chunk))
+/* only a suffix is removed, and everything removed is a blank or a tab */
+__CPROVER_ensures(ST_SIZE <= ST_OLD && __CPROVER_return_value == ST_OLD - ST_SIZE && Chunk_m_origColEnd(chunk) == col - (ST_OLD - ST_SIZE))
+__CPROVER_ensures((g_strip_K >= ST_SIZE && g_strip_K < ST_OLD) ==> (UT_at(ST_STR, g_strip_K) == ' ' || UT_at(ST_STR, g_strip_K) == '\t'))
+/* disabled-region text is never stripped (C07) */
+__CPROVER_ensures(Chunk_m_type(chunk) == CT_IGNORED_V ==> ST_SIZE == ST_OLD)
+/* C17: afterwards the text is empty, or does not end in a blank, or ends in backslash + one blank (kept on purpose) */
+__CPROVER_ensures(Chunk_m_type(chunk) != CT_IGNORED_V ==> (ST_SIZE == 0 || (UT_at(ST_STR, ST_SIZE - 1) != ' ' && UT_at(ST_STR, ST_SIZE - 1) != '\t')
+                                                            || (ST_SIZE >= 2 && UT_at(ST_STR, ST_SIZE - 2) == '\\')))
+/* C03 / C02: stripping never exposes a backslash as the last character */
+__CPROVER_ensures(ST_SIZE < ST_OLD ==> (ST_SIZE == 0 || UT_at(ST_STR, ST_SIZE - 1) != '\\'))
+;
